@@ -136,15 +136,30 @@ def run_product(st, opts):
             return tt.amen_mm(ops[0], ops[1], X0=g, eps=eps)
         return tt.dmrg_hadamard(ops[0], ops[1], z0=g, eps=eps)
     ncalls = 2 if cfg["guess"] == "reused" else 1
+    traces = []
+    from torchtt import _verif
     for it in range(ncalls):
         snap = algrun.snapshot(allobjs)
         stats["calls"] += 1
+        sweep = {"begin": None, "ev": [], "end": None}
+
+        def sink(name, f, sweep=sweep):
+            if name == "dmrg_begin": sweep["begin"] = f
+            elif name == "dmrg_step": sweep["ev"].append(f)
+            elif name == "dmrg_end": sweep["end"] = f
+        _verif.install(sink if op in ("fast_matvec", "dmrg_hadamard") and not use_cpp else None)
         try:
             Y = call()
         except Exception as ex:  # noqa
             problems.append(mk_problem("C11", "exception", cfg, "call %d raised %s: %s" % (it + 1, type(ex).__name__, str(ex)[:200]), st, {"exc": type(ex).__name__}))
             check_operands(cfg, st, tt, allobjs, snap, allnames, problems)
             break
+        finally:
+            _verif.install(None)
+        if sweep["begin"] is not None and sweep["end"] is not None and d >= 2:
+            b = sweep["begin"]
+            traces.append({"routine": b["routine"], "M": b["M"], "Ry": b["Ry"], "nswp": b["nswp"], "kick": b["kick"], "ev": sweep["ev"], "end": sweep["end"],
+                           "result_R": [int(r) for r in Y.R] if isinstance(Y, tt.TT) else [], "cfg": cfg})
         check_operands(cfg, st, tt, allobjs, snap, allnames, problems)
         if not check_tt("C11", cfg, st, tt, Y, want[0], want[1], want[2], problems):
             continue
@@ -155,7 +170,10 @@ def run_product(st, opts):
                 it + 1, err, TOL["C11"], eps, Y.R), st))
     stats["nontrivial"] = 1 if d >= 2 and cfg["r"] >= 2 else 0
     sample = {"cfg": cfg, "expected": {k: (sorted(v) if isinstance(v, (set, frozenset)) else v) for k, v in exp.items()}}
-    return {"problems": problems, "stats": stats, "sample": sample}
+    for t in traces:      # the returned object's ranks must be the ranks the sweep ended with
+        if t["result_R"] and t["result_R"] != t["end"]["Ry"]:
+            problems.append(mk_problem("C11", "ranks-vs-shapes", cfg, "the sweep's rank list %s differs from the returned object's ranks %s" % (t["end"]["Ry"], t["result_R"]), st))
+    return {"problems": problems, "stats": stats, "sample": sample, "artifacts": traces}
 
 
 def handler(st, opts):
